@@ -167,19 +167,29 @@ theorem mem_convex {r : Rng} {a b v : Int} (ha : Mem a r) (hb : Mem b r) (h1 : a
 
 theorem andMul_nn {a b : PyNum} (ha : NN a) (hb : NN b) : NN (andMul a b) := by
   unfold andMul
-  cases a <;> cases b <;> simp_all [PyNum.truthy, PyNum.mul] <;> (try split_ifs) <;> simp_all
+  cases a <;> cases b <;> simp_all [PyNum.truthy, PyNum.mul] <;> (try split_ifs) <;> simp_all <;> omega
 
 theorem andMul_comm {a b : PyNum} (ha : NN a) (hb : NN b) : andMul a b = andMul b a := by
   unfold andMul
-  cases a <;> cases b <;> simp_all [PyNum.truthy, PyNum.mul, Int.mul_comm] <;> (try split_ifs) <;> simp_all <;> omega
+  cases a <;> cases b <;> simp_all [PyNum.truthy, PyNum.mul, Int.mul_comm] <;> (try split_ifs) <;> simp_all
 
 
 theorem andMul_int_pinf (a : Int) : andMul (int a) pinf = if a = 0 then int 0 else if 0 < a then pinf else ninf := by
-  unfold andMul; by_cases ha : a = 0 <;> simp [PyNum.truthy, PyNum.mul, ha]
-  split_ifs <;> first | rfl | omega
+  rcases lt_trichotomy a 0 with h | h | h
+  · have h1 : ¬ a = 0 := by omega
+    have h2 : ¬ 0 < a := by omega
+    simp [andMul, PyNum.truthy, PyNum.mul, h, h1, h2]
+  · simp [andMul, PyNum.truthy, h]
+  · have h1 : ¬ a = 0 := by omega
+    simp [andMul, PyNum.truthy, PyNum.mul, h, h1]
 theorem andMul_int_ninf (a : Int) : andMul (int a) ninf = if a = 0 then int 0 else if 0 < a then ninf else pinf := by
-  unfold andMul; by_cases ha : a = 0 <;> simp [PyNum.truthy, PyNum.mul, ha]
-  split_ifs <;> first | rfl | omega
+  rcases lt_trichotomy a 0 with h | h | h
+  · have h1 : ¬ a = 0 := by omega
+    have h2 : ¬ 0 < a := by omega
+    simp [andMul, PyNum.truthy, PyNum.mul, h, h1, h2]
+  · simp [andMul, PyNum.truthy, h]
+  · have h1 : ¬ a = 0 := by omega
+    simp [andMul, PyNum.truthy, PyNum.mul, h, h1]
 theorem andMul_pinf_int (a : Int) : andMul pinf (int a) = if a = 0 then int 0 else if 0 < a then pinf else ninf := by
   rw [andMul_comm (by simp) (by simp), andMul_int_pinf]
 theorem andMul_ninf_int (a : Int) : andMul ninf (int a) = if a = 0 then int 0 else if 0 < a then ninf else pinf := by
@@ -192,20 +202,29 @@ theorem andMul_ninf_int (a : Int) : andMul ninf (int a) = if a = 0 then int 0 el
 macro "pyarith" : tactic =>
   `(tactic| first | omega | nlinarith | (left; omega) | (right; omega) | (left; nlinarith) | (right; nlinarith))
 
+theorem mul_mono_lower_int (a c x k : Int) (h : a ≤ x ∧ x ≤ c) : a * k ≤ x * k ∨ c * k ≤ x * k := by
+  rcases le_or_gt 0 k with hk | hk
+  · left; nlinarith
+  · right; nlinarith
+theorem mul_mono_upper_int (a c x k : Int) (h : a ≤ x ∧ x ≤ c) : x * k ≤ a * k ∨ x * k ≤ c * k := by
+  rcases le_or_gt 0 k with hk | hk
+  · right; nlinarith
+  · left; nlinarith
+
 /-- multiplication by a fixed non-`nan` factor is monotone or antitone: one endpoint product is below … -/
 theorem andMul_mono_lower {r : Rng} (hr : Valid r) {x : Int} (hx : Mem x r) {b : PyNum} (hb : NN b) :
     PyNum.le (andMul r.1 b) (andMul (int x) b) = true ∨ PyNum.le (andMul r.2 b) (andMul (int x) b) = true := by
   rcases valid_cases hr with ⟨a, c, rfl, hac⟩ | ⟨c, rfl⟩ | ⟨a, rfl⟩ | rfl <;> cases b <;>
     simp only [andMul_int_int, andMul_int_pinf, andMul_int_ninf, andMul_pinf_int, andMul_ninf_int, andMul_pinf_pinf,
-      andMul_ninf_ninf, andMul_pinf_ninf, andMul_ninf_pinf, mem_int_int, mem_ninf_int, mem_int_pinf, not_nn_nan] at hx hb ⊢ <;>
-    split_ifs <;> simp_all <;> pyarith
+      andMul_ninf_ninf, andMul_pinf_ninf, andMul_ninf_pinf, mem_int_int, mem_ninf_int, mem_int_pinf, mem_ninf_pinf, not_nn_nan] at hx hb ⊢ <;>
+    (try split_ifs) <;> (try simp_all) <;> (try pyarith) <;> (try exact mul_mono_lower_int _ _ _ _ hx)
 
 /-- … and one endpoint product is above -/
 theorem andMul_mono_upper {r : Rng} (hr : Valid r) {x : Int} (hx : Mem x r) {b : PyNum} (hb : NN b) :
     PyNum.le (andMul (int x) b) (andMul r.1 b) = true ∨ PyNum.le (andMul (int x) b) (andMul r.2 b) = true := by
   rcases valid_cases hr with ⟨a, c, rfl, hac⟩ | ⟨c, rfl⟩ | ⟨a, rfl⟩ | rfl <;> cases b <;>
     simp only [andMul_int_int, andMul_int_pinf, andMul_int_ninf, andMul_pinf_int, andMul_ninf_int, andMul_pinf_pinf,
-      andMul_ninf_ninf, andMul_pinf_ninf, andMul_ninf_pinf, mem_int_int, mem_ninf_int, mem_int_pinf, not_nn_nan] at hx hb ⊢ <;>
-    split_ifs <;> simp_all <;> pyarith
+      andMul_ninf_ninf, andMul_pinf_ninf, andMul_ninf_pinf, mem_int_int, mem_ninf_int, mem_int_pinf, mem_ninf_pinf, not_nn_nan] at hx hb ⊢ <;>
+    (try split_ifs) <;> (try simp_all) <;> (try pyarith) <;> (try exact mul_mono_upper_int _ _ _ _ hx)
 
 end NutilsVerif.C06
